@@ -397,7 +397,8 @@ class LocationMonitor:
             sample["line_text"] = line_text[:120]
         chk.case(distinct_key=distinct, sample=sample)
 
-        ok_table = (line, column) == (ref_line, ref_column)
+        # a node without token range has no meaningful offset: judged on the AST position only
+        ok_table = untokened or (line, column) == (ref_line, ref_column)
         ok_node = (line, column) in admissible if admissible else True
         if not ok_node and interval is not None:
             ok_node = interval[0] <= (line, column) <= interval[1]
@@ -508,6 +509,13 @@ MINIMAL_REPRODUCERS = [
         "  # a long comment line to shift things by many characters ...........\n"
         + FOOTER.lstrip("\n") + "class A:\n    x: int = 1",
         (5, 14),
+    ),
+    (
+        "node-inside-f-string",
+        "class Something:\n    x: Optional[int]\n\n    def __init__(self, x: Optional[int] = None) -> None:\n"
+        "        self.x = x\n\n\n@verification\ndef match_something(text: str) -> bool:\n    a = f\"{a}\"\n"
+        "    return match(a, text) is not None\n" + FOOTER,
+        (10, 12),
     ),
 ]
 
